@@ -1674,7 +1674,7 @@ reexecute:
                 }
                 h_state = h_matching_connection_token_start;
                 parser->index = 0;
-              } else if (ch != ' ') {
+              } else if (ch != ' ' && ch != '\t') {
                 h_state = h_matching_connection_token;
               }
               break;
